@@ -61,6 +61,7 @@ type op struct {
 	Desc        string
 	Bytes       []byte
 	probe       *probeCall
+	created     common.Address // probe-create: address of the contract the creation deploys
 }
 
 type world struct {
